@@ -263,13 +263,8 @@ class _ImmutableTaskList:
         :param kwargs: task filters
         :return: list of matched tasks
         """
-        if key is not None:
-            if callable(key):
-                return _ImmutableTaskList([t for t in self if key(t)])
+        if key is not None and not callable(key):
             raise RuntimeError(f"Unsupported key type: {type(key)}")
-
-        if kwargs is None:
-            return _ImmutableTaskList([t for t in self._list])
 
         def search(t, **kw):
             for k, v in kw.items():
@@ -330,7 +325,8 @@ class _ImmutableTaskList:
                     return False
             return True
 
-        return _ImmutableTaskList([t for t in self if search(t, **kwargs)])
+        # A callable filter and keyword filters may be combined: a task is selected when every filter holds
+        return _ImmutableTaskList([t for t in self if (key is None or key(t)) and search(t, **kwargs)])
 
     def order_by(self, key: Union[str, List[str]], reverse=False) -> '_ImmutableTaskList':
 
